@@ -1,11 +1,18 @@
 """C05 — names are bound to the declaration selected by the language's lexical scoping.
 
-Workload: G-bind programs (lib/gen_bind.py). Every declaration carries a unique constant and every use is printed, so CPython /
-node reveal per executed occurrence which declaration the language bound it to; Python's symtable module is a second, independent
-oracle (a disagreement between the two is a harness fault, never a lian violation). lian's answer is the symbol_id recorded in
-semantic_p1/s2space_p1.bundle* for that (statement, name), compared with the stmt ids of the GIR declaration rows of the scope the
-runtime selected. Second clause: an alpha-renamed twin (one declaration + exactly the occurrences bound to it, per the oracle) must
-give position-wise identical P1 binding tables; for Java/Go/C/PHP/TypeScript this relation is the only oracle."""
+Workload: G-bind programs (lib/gen_bind.py): Python and JavaScript single-file programs, multi-file Python projects, and small
+hand-written shadowing templates for Java, Go, C, PHP, TypeScript. Every declaration carries a unique constant and every read is
+printed, so CPython / node reveal per executed occurrence which declaration the language bound it to; Python's symtable module is a
+second, independent oracle (a disagreement between the two is a harness fault, never a lian violation). lian's answer is the
+symbol_id recorded in semantic_p1/s2space_p1.bundle* for that (statement, name), compared with the stmt ids of the GIR declaration
+rows of the scope (or file) the runtime selected; a read that raises NameError/ReferenceError must come out unresolved (negative id).
+Second clause: an alpha-renamed twin (one declaration + exactly the occurrences bound to it, per the oracle; behaviour re-checked
+under the runtime / javac / gcc / node) must give the same P1 binding tables up to that name; for Java/Go/C/PHP/TypeScript this
+relation is the only oracle.
+
+A failing occurrence gets a mechanism signature `<language>:<use-site>-><expected declaration>:bound-to-<what lian chose>`; for the
+root causes found on the pinned tree the components that do not matter for the cause are written `*` (py_signature, js_signature,
+proj_signature), so that one defect is one signature and everything else of the same program is still judged on its own."""
 import json
 import os
 import random
@@ -16,6 +23,8 @@ from lib import common, forkpool, lianrun
 PROP = "C05"
 PY_BATCH = 10
 JS_BATCH = 10
+JUDGED = "occurrences judged (executed reads, call sites, assignment/declaration targets, global/nonlocal and function-local import statements)"
+UNRES = "reads with no visible declaration judged (NameError/ReferenceError at run time)"
 
 
 # =====================================================================================================================
@@ -848,8 +857,7 @@ def batch_js_single(job):
     if tw:
         touts = gen_bind.run_node([p["twin_try"]["text"] for p in tw], wd)
         for p, o in zip(tw, touts or [None] * len(tw)):
-            same = o is not None and o["status"] == "ok" and [list(x) for x in o["outputs"]] == \
-                [[t_, v] for t_, vs in [(k, v) for k, v in []]] if False else (o is not None and o["status"] == "ok")
+            same = o is not None and o["status"] == "ok"      # the twin must be total and print exactly what the original printed
             if same:
                 obs = {}
                 for t_, v in o["outputs"]:
@@ -1472,9 +1480,10 @@ def main():
         lang = v["lang"]
         chk.evaluated(v["programs"])
         chk.count(f"{lang}: programs analysed", v["programs"])
-        chk.count(f"{lang}: occurrences judged (executed uses and call sites)", v["judged"])
-        chk.count(f"{lang}: uses with no visible declaration judged (NameError/ReferenceError at run time)", v["unresolved"])
-        chk.count(f"{lang}: occurrences joined to a GIR row by tag, line and name", v["join_ok"])
+        if v["judged"] or lang in ("python", "javascript", "python-project"):
+            chk.count(f"{lang}: {JUDGED}", v["judged"])
+            chk.count(f"{lang}: {UNRES}", v["unresolved"])
+            chk.count(f"{lang}: occurrences joined to a GIR row by tag/constant, line and name", v["join_ok"])
         chk.count(f"{lang}: rename pairs compared", v["rename_pairs"])
         chk.count(f"{lang}: s2space symbol rows compared across rename pairs", v["rename_rows"])
         chk.count(f"{lang}: s2space symbol rows read", v["s2rows"])
@@ -1502,8 +1511,7 @@ def main():
     chk.count("distinct (language, use-site scope kind, declaration kind) pairs judged", len(pairs))
     if not rp:
         k = 1 if not thorough else 18
-        J = "occurrences judged (executed uses and call sites)"
-        U = "uses with no visible declaration judged (NameError/ReferenceError at run time)"
+        J, U = JUDGED, UNRES
         chk.require(f"python: {J}", 3000 * k)
         chk.require(f"python: {U}", 300 * k)
         chk.require("python: rename pairs compared", 60 * k)
